@@ -457,6 +457,81 @@ fn targeted(ctx: &Ctx, seed: u64) -> Vec<(Fail, J)> {
     out
 }
 
+/// Two directory routes of one host sharing one cache-enabled AppState, whose directories contain the same relative
+/// paths with different contents: each route must keep serving its own directory's files, in any request order.
+fn shared_cache(ctx: &Ctx, seed: u64) -> Vec<(Fail, J)> {
+    let mut rng = Lcg(seed);
+    let tree = build_tree(&mut rng);
+    let root2 = tree.root.parent().unwrap().join("second");
+    let mut files2: BTreeMap<String, Vec<u8>> = BTreeMap::new();
+    for (rel, _) in tree.files.iter() {
+        // every other file also exists in the second directory, with other bytes (and sometimes another length)
+        if rng.next() % 3 != 0 {
+            let p = root2.join(rel);
+            std::fs::create_dir_all(p.parent().unwrap()).unwrap();
+            let content = format!("SECOND[{}]#{}", rel, rng.next() % 1000).into_bytes();
+            std::fs::write(&p, &content).unwrap();
+            files2.insert(rel.clone(), content);
+        }
+    }
+    std::fs::create_dir_all(&root2).unwrap();
+    let state = Arc::new(humphrey_server::server::server::AppState::from(crate::props::c16::quiet_config(1 << 20, 60)));
+    let dir_a = leak(tree.root.display().to_string());
+    let dir_b = leak(root2.display().to_string());
+    let routes: [(&'static str, &'static str, &BTreeMap<String, Vec<u8>>); 2] = [("/pub/*", dir_a, &tree.files), ("/adm/*", dir_b, &files2)];
+    let mut out = Vec::new();
+    for (rel, _) in tree.files.iter() {
+        if rel.contains("..") || rel.contains(':') {
+            continue;
+        }
+        let order: Vec<usize> = match rng.next() % 3 {
+            0 => vec![0, 1, 0, 1],
+            1 => vec![1, 0, 1, 0],
+            _ => vec![0, 0, 1, 1],
+        };
+        for k in order {
+            let (route, dir, files) = routes[k];
+            let uri = format!("{}{}", route.trim_end_matches('*'), encode_path(rel));
+            ctx.case(hash_of(&(seed, route, &uri, "shared-cache")), true, &["two-directory-routes-one-cache"]);
+            let st = state.clone();
+            match catch(|| humphrey_server::r#static::directory_handler(request(&uri), st, dir, route, 0)) {
+                Err(p) => out.push((fail!("handler-panic", "directory handler panicked for {:?}: {}", uri, p), json!({"tree_seed": seed.to_string(), "uri": uri}))),
+                Ok(r) => {
+                    let status = u16::from(r.status_code);
+                    let f = match files.get(rel) {
+                        Some(c) => {
+                            if status != 200 || &r.body != c {
+                                let other = routes[1 - k].2.get(rel).map_or(false, |o| *o == r.body);
+                                Some(fail!(
+                                    if other { "other-routes-file-served" } else { "file-not-served:ServerDirectory" },
+                                    "two directory routes share one cache: {} answered {} with {} bytes for {:?}; its own directory holds {} bytes there{}",
+                                    route, status, r.body.len(), uri, c.len(), if other { " — the body is the other route's file" } else { "" }
+                                ))
+                            } else {
+                                None
+                            }
+                        }
+                        None => {
+                            if status == 200 {
+                                Some(fail!("other-routes-file-served", "{} answered 200 ({} bytes) for {:?}, which does not exist in its directory (it exists under the other route)", route, r.body.len(), uri))
+                            } else {
+                                None
+                            }
+                        }
+                    };
+                    if let Some(f) = f {
+                        if !out.iter().any(|(x, _): &(Fail, J)| x.sig == f.sig) {
+                            out.push((f, json!({"tree_seed": seed.to_string(), "route": route, "uri": uri})));
+                        }
+                    }
+                }
+            }
+        }
+    }
+    ctx.sample("two-directory-routes-one-cache", || json!({"routes": ["/pub/* -> root", "/adm/* -> second"], "sequence": "same relative path requested through both routes in turn, cache on"}));
+    out
+}
+
 pub fn run(ctx: &Ctx) {
     ctx.rule("generated directory trees (nested to depth 4, index.html/index.htm/neither, extension-less / multi-dot / spaced / Unicode / %-containing names, canary files next to the root, two levels up, in a sibling with the root's name as prefix, and an index.html outside) x handlers {serve_dir at /* and /s/*, serve_as_file_path, server directory routes with cache on/off} x request paths: every file by its (encoded) path, every directory with and without slash, random compositions of up to 5 hostile segments (dot-segments, encoded dots and separators, NUL, double-encoding, overlong UTF-8, absolute components, repeated slashes), and a targeted grid of traversal spellings. Non-trivial = path with a dot-segment, an encoded character or a nested file/directory; distinct by (tree, handler, route, uri)");
     ctx.assume("handlers are called in-process with (route, uri) pairs the router would dispatch (uri = route prefix + path); symlinks and case-insensitive file systems are outside the quantifier");
@@ -476,6 +551,10 @@ pub fn run(ctx: &Ctx) {
     });
     let t = targeted(ctx, pt::mix(ctx.seed, 699));
     found.lock().unwrap().extend(t);
+    for k in 0..ctx.tier.pick(20u64, 400u64) {
+        let t = shared_cache(ctx, pt::mix(ctx.seed, 650 + k));
+        found.lock().unwrap().extend(t);
+    }
     let mut seen = std::collections::BTreeSet::new();
     for (f, c) in found.into_inner().unwrap() {
         if seen.insert(f.sig.clone()) && !ctx.tolerate(&f) {
